@@ -8,6 +8,7 @@ import (
 	"strings"
 	"time"
 
+	"github.com/getlantern/goexpr"
 	"github.com/getlantern/zenodb/core"
 	"github.com/getlantern/zenodb/sql"
 )
@@ -104,6 +105,20 @@ func pushdownAllowed(opts *Opts, query *sql.Query) (bool, error) {
 			// If any subquery contains order by, crosstab, limit or offset, we can't push down
 			log.Debugf("Pushdown not allowed because subquery contains disallowed clause: %v", sub.SQL)
 			return false, nil
+		}
+		if sub.Where != nil {
+			hasInSubQuery := false
+			sub.Where.WalkLists(func(list goexpr.List) {
+				if _, ok := list.(*sql.SubQuery); ok {
+					hasInSubQuery = true
+				}
+			})
+			if hasInSubQuery {
+				// Only the IN-subqueries of the outermost WHERE are resolved against
+				// the whole cluster, deeper ones would see a single partition's data
+				log.Debugf("Pushdown not allowed because subquery filters on an IN-subquery: %v", sub.SQL)
+				return false, nil
+			}
 		}
 	}
 
